@@ -6,6 +6,13 @@ import os
 VERIF = os.path.dirname(os.path.dirname(os.path.abspath(__file__)))
 
 CHECKS = {
+    "C01": {
+        "category": "proof",
+        "text": "Coq theorems (Properties/C01.v) over timelines of committed micro-steps of the SQLite flavour (a Store method = retention-prune micro-step + core micro-step, proved to refine the method; a timeline = any interleaving of micro-steps of concurrent requests; a crash = a cut): for every timeline and every cut the recovered queue satisfies the invariant (each id once, every message whole and in one coherent state) and is an ordinary reachable state; every recovered message is, in its immutable fields, the message of a successful enqueue micro-step before the cut (nothing nobody sent); a message whose enqueue micro-step is before the cut is recovered unless a later micro-step before the cut removed it for a documented reason; committed acks/nacks/dead-letters are not undone; a fan-out handler answers 202 only after every per-target enqueue micro-step committed. Tied to the code by running the REAL binary (cmd/hookaido built from the working tree) with crash points inserted by a go/ast rewriter before and after every database statement, Store call and response write (340 points in overlay copies of 5 files, self-tested), killing it with SIGKILL at each enumerated point of generated workloads (ingress on pull and 3-target fan-out routes, admin publish batches, pull dequeue/ack/nack/dead/extend), restarting on the same database and judging the recovered queue against the acknowledgements the client received, against PRAGMA integrity_check, against redelivery after lease expiry, and against the state Model/Queue.v computes for the acknowledged operations.",
+        "design_ref": "DESIGN.md section 5 C01, section 12",
+        "note": "Trusted: Coq kernel; SQLite's own durability (a returned COMMIT under WAL+synchronous=FULL survives power loss) - a process kill cannot exhibit power loss; crashes inside SQLite's WAL write/checkpoint sequence are not enumerated (crash points are between Go statements); the crash-point rewriter and the Python orchestration; the workload client is sequential (one request in flight at the kill), concurrency is covered by the theorems (any interleaving of micro-steps) only. Memory backend: no durability claimed by the product.",
+        "technique": "Coq proof over crash cuts of micro-step timelines + enumerated self-kill crash points in the real binary with restart and judgement",
+    },
     "C02": {
         "category": "proof",
         "text": "Coq theorems over Model/Queue.v (one function per Store method, both backend flavours, all configurations, all argument values, validated oracle for the store's own choices): every reachable state stores each id once in exactly one coherent state (invariant by induction over arbitrary histories); every step of every history is a per-message application of the documented machine ([change]: same / expired lease released / dequeued / settled through its current unexpired lease / operator mutation from an allowed state) plus documented removals ([removal]: ack without delivered-retention, DLQ delete of a dead message, retention prune of a non-leased eligible message, drop_oldest eviction of a queued message by a successful enqueue) plus the verbatim messages of a successful enqueue; immutable fields never change; a leased message disappears only through its own ack; an operation that returns an error changes nothing beyond releasing expired leases (and the interval-gated prune). Tied to the code by executing generated histories on the real memory and SQLite stores and on the model and comparing a checksum of (result, complete stored state incl. lease fields) after every step; the executable monitor P_C02 is evaluated on the implementation trace.",
@@ -36,7 +43,7 @@ CHECKS = {
     },
     "C12": {
         "category": "proof",
-        "text": "Queue part - Coq theorems: a refused enqueue (full, duplicate, pressure) returns exactly the pruned input state (nothing evicted, stored or touched); a successful enqueue leaves active <= max_depth; along every history without operator requeue/resume active <= max_depth (invariant); only enqueue and operator requeue/resume raise the active count; SQLite evicts exactly max(0, need - max_depth) distinct queued messages, the memory plan evicts distinct queued messages until not full; the victim is an oldest queued message on both backends; evictions only for a successful enqueue under drop_oldest (C02 removal relation). Rate-limit and size part (Properties/C12rl.v, lib/c12rl.py): see notes. Tied to the code by per-step correspondence on small-max_depth histories (duplicates, over-sized batches) on both stores.",
+        "text": "Queue part - Coq theorems: a refused enqueue (full, duplicate, pressure) returns exactly the pruned input state (nothing evicted, stored or touched); a successful enqueue leaves active <= max_depth; along every history without operator requeue/resume active <= max_depth (invariant); only enqueue and operator requeue/resume raise the active count; SQLite evicts exactly max(0, need - max_depth) distinct queued messages, the memory plan evicts distinct queued messages until not full; the victim is an oldest queued message on both backends; evictions only for a successful enqueue under drop_oldest (C02 removal relation). Rate-limit and size part (Properties/C12rl.v, lib/c12rl.py): token-bucket invariant 0 <= tokens <= burst, the window bound #admitted in [a,c] <= burst + rps*(c-a) for every call sequence with non-decreasing times (induction via an accounting lemma, exact rationals), no refill when the clock steps back, limiter choice (route override else global else admit), 413 for bodies/headers over the route limits and queue untouched on every refusal; tied to the code by white-box AllowAt/allowIngress runs with injected clock (binary64 twin bit-exact, window bound evaluated on the real decisions for all windows), concurrent hammering, rate_limit directives through the real Compile and loopback HTTP requests around the size limits. Tied to the code by per-step correspondence on small-max_depth histories (duplicates, over-sized batches) on both stores.",
         "design_ref": "DESIGN.md section 5 C12, section 12",
         "note": "Trusted: Coq kernel (coqc 8.16.1, vm_compute; no axioms: every Print Assumptions is closed); the correspondence harness (Go harness mounted with -overlay, Python driver, checksum comparison of result + complete stored state after every step); store methods are treated as atomic steps (one mutex / one SQLite transaction on one pooled connection) and histories are sequential; the SQLite engine itself; Postgres backend cannot run here (read only). Payload/headers/trace are opaque handles in this model. Nondeterministic choices of the store (which ready messages a dequeue picks, generated ids, victims among equally old messages) are oracle inputs validated by the model, not predicted.",
         "technique": "Coq proof + per-step differential correspondence with both real stores",
@@ -54,6 +61,13 @@ CHECKS = {
         "design_ref": "DESIGN.md section 5 C14, section 12",
         "note": "Trusted: Coq kernel (coqc 8.16.1, vm_compute; no axioms: every Print Assumptions is closed); the correspondence harness (Go harness mounted with -overlay, Python driver, checksum comparison of result + complete stored state after every step); store methods are treated as atomic steps (one mutex / one SQLite transaction on one pooled connection) and histories are sequential; the SQLite engine itself; Postgres backend cannot run here (read only). Payload/headers/trace are opaque handles in this model. Nondeterministic choices of the store (which ready messages a dequeue picks, generated ids, victims among equally old messages) are oracle inputs validated by the model, not predicted. The HTTP/MCP request parsing in front of the store (id-list caps, unknown fields) is not modelled in this revision.",
         "technique": "Coq proof + per-step differential correspondence with both real stores",
+    },
+    "C06": {
+        "category": "proof",
+        "text": "Coq theorems (Properties/C06.v): the complete classification table for every status code and error kind (2xx ack; network/timeout/other errors, 5xx, 429, 408 retry iff attempt <= max else dead max_retries; other 4xx, 1xx, 3xx dead no_retry; policy denial dead policy_denied, never retried), including the computed 500-row table; for every stream of target behaviours the number of deliveries per enqueue/requeue cycle is at most max+1 and the cycle ends delivered or dead with one of the three reasons (induction on the measure max+1-attempt); delay bounds d(1-j) <= delay <= d(1+j) over exact rationals for every compile-accepted config; one attempt record per classify path; the dispatcher lease TTL covers its micro-batch. Tied to the code by an exhaustive run of all 500 codes x attempts x error kinds through the real classifyDelivery, bit-exact comparison of retryDelay with a primitive-float twin on seeded draws (incl. saturation and +Inf), whole-loop runs of the real PushDispatcher on both stores with scripted targets, and retry directives through the real Compile.",
+        "design_ref": "DESIGN.md section 5 C06, docs/notes/C06.md",
+        "note": "The link between the binary64 twin and the rational model is checked on generated inputs only (no Flocq lemma); no primitive-float axiom is used by any theorem. Trusted: Coq kernel; math/rand draw observation (//go:debug randseednop=0); time.Sleep/HTTP client timing.",
+        "technique": "Coq proof (total classification, bounded retries by induction, rational delay bounds) + exhaustive differential table and whole-loop runs",
     },
     "C08": {
         "category": "proof",
